@@ -32,28 +32,30 @@ PID = 'C18'
 
 
 def run_models(chk, tier, seed):
-    """One TLC run per (mode, variant), concurrently; -> {(mode, variant): [records]}"""
+    """Two TLC runs (exact mode with all model invariants; kkt mode = generator only), concurrently;
+    -> {(mode, variant): [records]}"""
     out = {}
 
-    def go(mode, v):
-        inst = mdcev.one_variant(mdcev.instance(tier, seed, mode), v)
-        out[(mode, v)] = tlc.run('MCMdcev', mdcev.cfg(inst, invariants=None if mode == 'exact' else ['StagesOK']),
-                                 extra_modules={'MCMdcev': mdcev.module(inst)}, workers=3 if mode == 'exact' else 1,
-                                 timeout=1500, heap='2g')
+    def go(mode):
+        inst = mdcev.instance(tier, seed, mode)
+        out[mode] = tlc.run('MCMdcev', mdcev.cfg(inst, invariants=None if mode == 'exact' else ['StagesOK']),
+                            extra_modules={'MCMdcev': mdcev.module(inst)}, workers=12 if mode == 'exact' else 3,
+                            timeout=2400, heap='4g')
 
-    ths = [threading.Thread(target=go, args=(m, v)) for m in ('exact', 'kkt') for v in mdcev.VARIANTS]
+    ths = [threading.Thread(target=go, args=(m,)) for m in ('exact', 'kkt')]
     for t in ths:
         t.start()
     for t in ths:
         t.join()
     emitted = {}
-    for (mode, v), res in sorted(out.items()):
+    for mode, res in sorted(out.items()):
         invs = ', '.join(mdcev.MODEL_INVARIANTS) if mode == 'exact' else 'StagesOK (generator only)'
-        chk.add_tlc(f'Mdcev {mode} {v}: {invs}', res)
-        recs = [r for r in res.emitted if isinstance(r, dict) and 'c' in r and r['c']['v'] == v]
-        if not recs or res.states < len(recs):
-            raise tlc.MachineryError(f'Mdcev {mode} {v}: {len(recs)} instances emitted, {res.states} states: {res.raw[-1500:]}')
-        emitted[(mode, v)] = recs
+        chk.add_tlc(f'Mdcev {mode}, four variants: {invs}', res)
+        for v in mdcev.VARIANTS:
+            recs = [r for r in res.emitted if isinstance(r, dict) and 'c' in r and r['c']['v'] == v and r['c']['mode'] == mode]
+            if not recs or res.states < len(res.emitted):
+                raise tlc.MachineryError(f'Mdcev {mode} {v}: {len(recs)} instances emitted, {res.states} states: {res.raw[-1500:]}')
+            emitted[(mode, v)] = recs
     return emitted
 
 
@@ -95,14 +97,17 @@ def body(chk: check.Check):
         raise tlc.MachineryError(f'Mdcev.tla is not self-consistent: {probs[:3]}')
 
     # ------------------------------------------------------------------ replay
-    nlab = 2 if quick else 4
+    nlab = 2 if quick else 3
     items = []
     for i, r in enumerate(recs):
-        if quick and (i + chk.seed) % 2:      # the quick tier replays every second instance (all are model-checked)
+        if quick and (i + chk.seed) % 3:      # the quick tier replays every third instance (all are model-checked)
             continue
-        labs = mdcev.pick_labelings(r['c']['n'], i, nlab)
-        items.append(dict(id=f"{r['c']['mode'][0]}{i}", rec=r, labs=labs, engine=i % nlab, public=[i % nlab] if quick else 'all',
-                          validation=((i // nlab) % nlab) if i % (3 if quick else 2) == 0 else None))
+        j = len(items)
+        labs = mdcev.pick_labelings(r['c']['n'], j, nlab)
+        items.append(dict(id=f"{r['c']['mode'][0]}{i}", rec=r, labs=labs, engine=j % nlab, public=[j % nlab] if quick else 'all',
+                          validation=((j // nlab) % nlab) if j % (3 if quick else 2) == 0 else None))
+    chk.extra['validation_calls'] = sum(1 for it in items if it['validation'] is not None)
+    chk.extra['labellings_run'] = dict(collections.Counter(str(l) for it in items for l in it['labs']))
     chk.rule = ('instances emitted by TLC from Mdcev.tla (exact mode: with the optimum computed on the model; kkt mode: terms only); '
                 'a replayed behaviour = one instance x one labelling of the goods run through the real model classes; distinct = distinct '
                 '(variant, goods, outside good, prices, scale, budget) instances')
